@@ -309,6 +309,35 @@ func autoDischarge(w *World, s bceSite) (bool, string) {
 			if !ok || rs.Key == nil {
 				continue
 			}
+			// S[i] where i ranges over A and S was made with len(A) slots (S, A and i each assigned once / not resized)
+			if kid := identOf(rs.Key); kid != nil && info.Defs[kid] == obj && exprStr(rs.X) != exprStr(ix.X) && len(e.assigns[obj]) == 1 {
+				if sid := identOf(ix.X); sid != nil {
+					if sobj, ok := info.Uses[sid].(*types.Var); ok && len(e.assigns[sobj]) == 1 && !e.addrOf[sobj] {
+						xp := w.expander(s.Fn)
+						if rhs, _, _, ok := xp.def(sobj); ok && rhs != nil {
+							if mk, ok := unparen(rhs).(*ast.CallExpr); ok && isBuiltin(info, mk, "make") && len(mk.Args) >= 2 {
+								if ln, ok := unparen(mk.Args[1]).(*ast.CallExpr); ok && isBuiltin(info, ln, "len") && len(ln.Args) == 1 && exprStr(ln.Args[0]) == exprStr(rs.X) {
+									// the ranged expression is not assigned anywhere in the function (its length is the same at make and at range)
+									reassigned := false
+									ast.Inspect(w.rootOf(s.Fn).Node(), func(n ast.Node) bool {
+										if as, ok := n.(*ast.AssignStmt); ok {
+											for _, l := range as.Lhs {
+												if exprStr(l) == exprStr(rs.X) || (identOfRoot(l) != nil && identOfRoot(rs.X) != nil && identOfRoot(l).Name == identOfRoot(rs.X).Name && as.Tok != token.DEFINE) {
+													reassigned = true
+												}
+											}
+										}
+										return true
+									})
+									if !reassigned {
+										return true, "range index over " + exprStr(rs.X) + " into " + sid.Name + ", which was made with len(" + exprStr(rs.X) + ") elements and is never reassigned"
+									}
+								}
+							}
+						}
+					}
+				}
+			}
 			if kid := identOf(rs.Key); kid != nil && info.Defs[kid] == obj && exprStr(rs.X) == exprStr(ix.X) {
 				if len(e.assigns[obj]) == 1 {
 					// the ranged expression must not be reassigned in the loop
